@@ -32,7 +32,7 @@ func merge(dstDir string, names []string) (string, error) {
 	for _, fn := range names {
 		f, err := os.Open(fn)
 		if err != nil {
-			return "", nil
+			return "", err
 		}
 		defer f.Close()
 
